@@ -21,9 +21,9 @@ import (
 	"math/big"
 	"testing"
 
+	"github.com/keep-network/keep-core/internal/testutils"
 	kit "github.com/keep-network/keep-core/internal/verifkit"
 	vs "github.com/keep-network/keep-core/internal/verifsub"
-	"github.com/keep-network/keep-core/internal/testutils"
 	beaconchain "github.com/keep-network/keep-core/pkg/beacon/chain"
 	"github.com/keep-network/keep-core/pkg/chain/ethereum"
 	"github.com/keep-network/keep-core/pkg/chain/local_v1"
